@@ -28,6 +28,8 @@ pub enum Q {
   EightChar(i64),
   ChildLimit(i64, bool),
   MonthNext(i64, i64, i64),
+  /// the public, uncached constructor
+  MonthNew(i64, i64),
 }
 
 impl Q {
@@ -42,6 +44,7 @@ impl Q {
       Q::EightChar(a) => format!("{}.get_lunar_hour().get_eight_char()", fmt_abs(*a)),
       Q::ChildLimit(a, man) => format!("ChildLimit({}, {})", fmt_abs(*a), if *man { "man" } else { "woman" }),
       Q::MonthNext(y, m, n) => format!("LunarMonth({}, {}).next({})", y, m, n),
+      Q::MonthNew(y, m) => format!("LunarMonth::new({}, {})", y, m),
     }
   }
 
@@ -72,6 +75,10 @@ impl Q {
         let x = LunarMonth::from_ym(*y as isize, *m as isize).next(*n as isize);
         format!("{}/{} first {}", x.get_year(), x.get_month_with_leap(), first_dn(&x))
       }
+      Q::MonthNew(y, m) => match LunarMonth::new(*y as isize, *m as isize) {
+        Ok(x) => format!("{}/{} first {} days {} idx {}", x.get_year(), x.get_month_with_leap(), first_dn(&x), x.get_day_count(), x.get_index_in_year()),
+        Err(_) => "REFUSED".into(),
+      },
     });
     match r {
       Ok(s) => s,
@@ -314,7 +321,7 @@ fn m1(cfg: &Cfg, pool: &[Q], cold: &BTreeMap<Q, String>, log: &mut Log) {
 }
 
 fn m2(cfg: &Cfg, pool: &[Q], cold: &BTreeMap<Q, String>, log: &mut Log) {
-  let rounds = cfg.tier.pick(20usize, 300usize);
+  let rounds = cfg.tier.pick(120usize, 800usize);
   let nthreads = 16usize;
   let refs = refusals();
   // month-heavy list: the race is in LunarMonth::from_ym
@@ -322,7 +329,7 @@ fn m2(cfg: &Cfg, pool: &[Q], cold: &BTreeMap<Q, String>, log: &mut Log) {
   let mut total_double = 0u64;
   for r in 0..rounds {
     let mut rng = Rng::new(mix(cfg.seed, r as u64 ^ 0x2C10));
-    let cold_start = r % 2 == 0;
+    let cold_start = r % 2 == 0 || r % 4 == 1;
     let yields = if (r / 2) % 2 == 0 { 0 } else { 50 };
     if cold_start {
       lhook::lunar_month_cache_reset();
@@ -333,9 +340,31 @@ fn m2(cfg: &Cfg, pool: &[Q], cold: &BTreeMap<Q, String>, log: &mut Log) {
     // a "hot" round: 12 queries only, asked by all threads in the SAME order three times over, so that
     // all 16 threads compute the same missing key at the same moment
     let hot = r % 4 == 3;
+    // every 4th round is a "storm": only cold month constructions of a handful of different lunar
+    // years, so that many threads are inside LunarMonth::new for DIFFERENT years at the same moment
+    // (state shared between constructions of different years shows up here)
+    let storm = r % 4 == 1;
     let mut list: Vec<Q> = (0..if hot { 10 } else { 120 }).map(|_| rng.pick(&months).clone()).collect();
     for _ in 0..if hot { 2 } else { 40 } {
       list.push(rng.pick(pool).clone());
+    }
+    if storm {
+      list.clear();
+      let years: Vec<i64> = (0..4).map(|_| rng.range(30, 9990)).collect();
+      for y in &years {
+        for m in 1..=12 {
+          list.push(Q::Month(*y, m));
+        }
+      }
+      // and the uncached public constructor, many times over: every call is a real construction
+      for _ in 0..6 {
+        for y in &years {
+          for m in 1..=12 {
+            list.push(Q::MonthNew(*y, m));
+          }
+        }
+      }
+      log.count("m2.storm_rounds_cold_constructions_of_4_years", 1);
     }
     if hot {
       log.count("m2.hot_rounds_same_order", 1);
@@ -352,7 +381,9 @@ fn m2(cfg: &Cfg, pool: &[Q], cold: &BTreeMap<Q, String>, log: &mut Log) {
           mine.extend(once);
         } else {
           trng.shuffle(&mut mine);
-          mine.truncate(120);
+          if !storm {
+            mine.truncate(120);
+          }
         }
         // a few refused requests in the middle of the traffic
         if t % 4 == 0 {
@@ -378,6 +409,20 @@ fn m2(cfg: &Cfg, pool: &[Q], cold: &BTreeMap<Q, String>, log: &mut Log) {
     let after = lhook::lunar_month_cache_stats();
     let res = results.lock().unwrap();
     let invalid: BTreeSet<Q> = refs.iter().map(|r| r.1.clone()).collect();
+    // single-threaded cold answers of queries that are not in the pool (storm rounds); computed after
+    // the round and followed by a reset so that they do not warm the cache for the next round
+    let mut extra_cold: BTreeMap<Q, String> = BTreeMap::new();
+    if storm {
+      let stats_before = lhook::lunar_month_cache_stats();
+      let _ = stats_before;
+      for q in list.iter() {
+        if !cold.contains_key(q) && !extra_cold.contains_key(q) {
+          lhook::lunar_month_cache_reset();
+          extra_cold.insert(q.clone(), q.answer());
+        }
+      }
+      lhook::lunar_month_cache_reset();
+    }
     log.ev(1);
     log.count("m2.rounds", 1);
     if yields > 0 {
@@ -399,7 +444,10 @@ fn m2(cfg: &Cfg, pool: &[Q], cold: &BTreeMap<Q, String>, log: &mut Log) {
         }
         continue;
       }
-      let want = cold.get(q).cloned().unwrap_or_default();
+      let want = match cold.get(q) {
+        Some(w) => w.clone(),
+        None => extra_cold.get(q).cloned().unwrap_or_default(),
+      };
       if *a != want {
         log.violate(
           format!("C10/threads/{:04}_{:02}_{}", r, t, fnv(&q.show()) % 100000),
